@@ -83,7 +83,7 @@ def check(repo: Repo, R) -> None:
               "the chain is broken, reversed or closed on itself: unit k's second port is not unit k+1's first")
         return
     # ... which are the module's ports resolved from conns[0] and conns[1], in that order
-    RES = {0: (f"_seriesconn({M}, {p}.conns[0])", f"_seriesconns({M}, {p}.conns)[0]"), 1: (f"_seriesconn({M}, {p}.conns[1])", f"_seriesconns({M}, {p}.conns)[1]")}
+    RES = {0: (f"_seriesconn({M}, {p}.conns[0])",), 1: (f"_seriesconn({M}, {p}.conns[1])",)}
     unpack = {}
     for st in au.stmts(fs.node):
         if isinstance(st, ast.Assign) and len(st.targets) == 1 and isinstance(st.targets[0], ast.Tuple) and len(st.targets[0].elts) == 2 and all(isinstance(x, ast.Name) for x in st.targets[0].elts):
@@ -91,7 +91,12 @@ def check(repo: Repo, R) -> None:
                 unpack[x.id] = f"{P_(st.value)}[{k_}]"
     def res(e):
         t = ast.unparse(e)
-        return unpack.get(t, P_(e))
+        if t in unpack:
+            return unpack[t]
+        # a field / element of the record the resolving helper returns, read through the call
+        pe = shared.prov(fs.node, e, keep=(M,))
+        pj = shared.project_call(repo, fs, pe)
+        return ast.unparse(pj) if pj is not None else ast.unparse(pe)
     resolved_ok = res(A) in RES[0] and res(B) in RES[1]
     comps = [w for w in writes if w[0] == "comp"]
     others = [w for w in writes if w[0] == "other"]
@@ -119,7 +124,7 @@ def check(repo: Repo, R) -> None:
                     par = {ast.unparse(x) for x in pr.elts} == {ast.unparse(A), ast.unparse(B)}
                 else:
                     # the resolved pair itself
-                    par = P_(pr) == f"_seriesconns({M}, {p}.conns)" and res(A) == RES[0][1] and res(B) == RES[1][1]
+                    par = P_(pr) == f"_seriesconns({M}, {p}.conns)" and res(A) in RES[0] and res(B) in RES[1]
             elif len(ifs) in (1, 2):
                 txt = {ast.unparse(c) for c in (ifs[0].values if len(ifs) == 1 and isinstance(ifs[0], ast.BoolOp) and isinstance(ifs[0].op, ast.And) else ifs)}
                 par = txt == {f"{tv} is not {ast.unparse(A)}", f"{tv} is not {ast.unparse(B)}"}
@@ -140,7 +145,10 @@ def check(repo: Repo, R) -> None:
     if fsc is not None:
         dsc = au.local_defs(fsc.node)
         rets = [n for n in au.walk_no_nested(fsc.node) if isinstance(n, ast.Return)]
-        ok = len(rets) == 1 and ast.unparse(au.expand(rets[0].value, dsc, depth=1)) == "(_seriesconn(m, conns[0]), _seriesconn(m, conns[1]))"
+        # a tuple display, or a record constructor with one keyword per field: the elements in order
+        rv_ = shared.prov(fsc.node, rets[0].value) if len(rets) == 1 and rets[0].value is not None else None
+        elems = [ast.unparse(x) for x in rv_.elts] if isinstance(rv_, ast.Tuple) else ([ast.unparse(k.value) for k in rv_.keywords] if isinstance(rv_, ast.Call) and rv_.keywords and not rv_.args else None)
+        ok = elems == ["_seriesconn(m, conns[0])", "_seriesconn(m, conns[1])"]
         R.check(ok, rule, key_of(fsc), fsc.site, f"the pair is returned as (resolve(conns[0]), resolve(conns[1])) — in the caller's order, not re-derived from the port list: {ok}", why="a pair named against the unit's declaration order (('s','d') on a Mos) is silently swapped: the chain is built from the wrong end")
     else:
         # no pair helper: the two ports are resolved in place (checked above: A from conns[0], B from conns[1])
@@ -176,7 +184,7 @@ def check(repo: Repo, R) -> None:
     rule = "C19.4-wrapper"
     fw = repo.func(F_GENERATORS, "Wrapper")
     a = fw.node.args.args[0].arg
-    io_all = bool(pat.find(f"wrapper_io = {{p.name: wrapper.add(deepcopy(p)) for p in io({a}).values()}}", fw.node))
+    io_all = bool(pat.find(f"wrapper_io = {{$P.name: wrapper.add(deepcopy($P)) for $P in io({a}).values()}}", fw.node))
     inner = bool(pat.find(f"wrapper.add(h.Instance(name='inner', of={a})(**wrapper_io))", fw.node))
     # the copies are made with deepcopy: both port kinds define it as a copy that shares the definition and has fresh connection tracking
     dc = {}
